@@ -48,6 +48,10 @@ CONFIGS = {
     "serde-unsafe-strict": (["t-default", "serde", "strict", "unsafe_"], ""),
     # all x86 back ends callable under Miri (feature detection is compile-time there)
     "default-avx2": (["t-default"], "-Ctarget-feature=+ssse3,+sse4.1,+avx2"),
+    # CPU classes for the run-time dispatch ladder under Miri (which detects at compile time)
+    "default-sse3": (["t-default"], "-Ctarget-feature=+sse3"),
+    "default-ssse3": (["t-default"], "-Ctarget-feature=+sse3,+ssse3"),
+    "default-sse41": (["t-default"], "-Ctarget-feature=+sse3,+ssse3,+sse4.1"),
     "unsafe-avx2": (["t-default", "unsafe_"], "-Ctarget-feature=+ssse3,+sse4.1,+avx2"),
     "serde-strict-avx2": (["t-default", "serde", "strict"], "-Ctarget-feature=+ssse3,+sse4.1,+avx2"),
     # invariant observers (hook H7): extra cfg
